@@ -68,7 +68,10 @@ var LongIDs = false
 func UseLongIDs(on bool) {
 	LongIDs = on
 	if on {
-		F, S, U, R = []byte("FNGB-a1b2c3"), []byte("SFTCOLL-0a0b0c"), []byte("UNKNOWN-000000"), []byte("RCOLLECTION-112233")
+		// realistic shape (ticker-6 hex digits); the two collections differ in their last byte only,
+		// the fungible token shares a 7-byte prefix with them and the unissued name is a strict
+		// prefix of a collection's identifier
+		F, S, U, R = []byte("COLLECT-a1b2c3"), []byte("COLLECTION-0a0b0c"), []byte("COLLECTION-0a0b"), []byte("COLLECTION-0a0b0d")
 	} else {
 		F, S, U, R = []byte("F"), []byte("S"), []byte("U"), []byte("R")
 	}
